@@ -45,6 +45,9 @@ var c19Dims = []c19Dim{
 	{"ocsp_aia_strict", []string{"", "true", "false"}},
 	{"trusted_responder_cert_file", []string{"", "pem", "pem,pem2"}},
 	{"misspelt", []string{"", "top", "crl_config", "cdp_config", "ocsp_config"}},
+	// how the Caddyfile spells the same settings (the JSON form is not affected): options of every block in reverse
+	// order, every value in double quotes, every value in backquotes
+	{"caddyfile_spelling", []string{"", "reversed-order", "double-quoted", "backquoted"}},
 }
 
 const (
@@ -62,6 +65,7 @@ const (
 	dAIA
 	dResponder
 	dMisspelt
+	dSpelling
 )
 
 type c19Conf []int
@@ -143,73 +147,94 @@ func (c c19Conf) workDir(e *c19Env) string {
 
 // renderCaddyfile writes the configuration in Caddyfile syntax.
 func (c c19Conf) renderCaddyfile(e *c19Env) string {
-	var sb strings.Builder
-	sb.WriteString("revocation {\n")
+	q := func(v string) string {
+		switch c[dSpelling] {
+		case 2:
+			return "\"" + v + "\""
+		case 3:
+			return "`" + v + "`"
+		}
+		return v
+	}
+	block := func(indent string, lines []string) string {
+		if c[dSpelling] == 1 {
+			for i, j := 0, len(lines)-1; i < j; i, j = i+1, j-1 {
+				lines[i], lines[j] = lines[j], lines[i]
+			}
+		}
+		var sb strings.Builder
+		for _, l := range lines {
+			for _, ll := range strings.Split(strings.TrimSuffix(l, "\n"), "\n") {
+				sb.WriteString(indent + ll + "\n")
+			}
+		}
+		return sb.String()
+	}
+	var top []string
 	if c.set(dMode) {
-		fmt.Fprintf(&sb, "\tmode %s\n", c.val(dMode))
+		top = append(top, "mode "+q(c.val(dMode)))
 	}
 	if c[dMisspelt] == 1 {
-		sb.WriteString("\tmodee crl_only\n")
+		top = append(top, "modee crl_only")
 	}
 	if c.hasCRLBlock() {
-		sb.WriteString("\tcrl_config {\n")
+		var ls []string
 		if wd := c.workDir(e); wd != "" {
-			fmt.Fprintf(&sb, "\t\twork_dir %s\n", wd)
+			ls = append(ls, "work_dir "+q(wd))
 		}
 		if c.set(dStorage) {
-			fmt.Fprintf(&sb, "\t\tstorage_type %s\n", c.val(dStorage))
+			ls = append(ls, "storage_type "+q(c.val(dStorage)))
 		}
 		if c.set(dInterval) {
-			fmt.Fprintf(&sb, "\t\tupdate_interval %s\n", c.val(dInterval))
+			ls = append(ls, "update_interval "+q(c.val(dInterval)))
 		}
 		if c.set(dSigMode) {
-			fmt.Fprintf(&sb, "\t\tsignature_validation_mode %s\n", c.val(dSigMode))
+			ls = append(ls, "signature_validation_mode "+q(c.val(dSigMode)))
 		}
 		for _, u := range c.urls(e) {
-			fmt.Fprintf(&sb, "\t\tcrl_url %s\n", u)
+			ls = append(ls, "crl_url "+q(u))
 		}
 		for _, f := range c.files(e) {
-			fmt.Fprintf(&sb, "\t\tcrl_file %s\n", f)
+			ls = append(ls, "crl_file "+q(f))
 		}
 		for _, f := range c.pems(dTrusted, e) {
-			fmt.Fprintf(&sb, "\t\ttrusted_signature_cert_file %s\n", f)
+			ls = append(ls, "trusted_signature_cert_file "+q(f))
 		}
 		if c[dMisspelt] == 2 {
-			sb.WriteString("\t\tstorage_typ memory\n")
+			ls = append(ls, "storage_typ memory")
 		}
 		if c.hasCDPBlock() {
-			sb.WriteString("\t\tcdp_config {\n")
+			var cd []string
 			if c.set(dFetch) {
-				fmt.Fprintf(&sb, "\t\t\tcrl_fetch_mode %s\n", c.val(dFetch))
+				cd = append(cd, "crl_fetch_mode "+q(c.val(dFetch)))
 			}
 			if c.set(dStrict) {
-				fmt.Fprintf(&sb, "\t\t\tcrl_cdp_strict %s\n", c.val(dStrict))
+				cd = append(cd, "crl_cdp_strict "+q(c.val(dStrict)))
 			}
 			if c[dMisspelt] == 3 {
-				sb.WriteString("\t\t\tcrl_cdp_strikt true\n")
+				cd = append(cd, "crl_cdp_strikt true")
 			}
-			sb.WriteString("\t\t}\n")
+			ls = append(ls, "cdp_config {\n"+block("\t", cd)+"}")
 		}
-		sb.WriteString("\t}\n")
+		top = append(top, "crl_config {\n"+block("\t", ls)+"}")
 	}
 	if c.hasOCSPBlock() {
-		sb.WriteString("\tocsp_config {\n")
+		var ls []string
 		if c.set(dCache) {
-			fmt.Fprintf(&sb, "\t\tdefault_cache_duration %s\n", c.val(dCache))
+			ls = append(ls, "default_cache_duration "+q(c.val(dCache)))
 		}
 		if c.set(dAIA) {
-			fmt.Fprintf(&sb, "\t\tocsp_aia_strict %s\n", c.val(dAIA))
+			ls = append(ls, "ocsp_aia_strict "+q(c.val(dAIA)))
 		}
 		for _, f := range c.pems(dResponder, e) {
-			fmt.Fprintf(&sb, "\t\ttrusted_responder_cert_file %s\n", f)
+			ls = append(ls, "trusted_responder_cert_file "+q(f))
 		}
 		if c[dMisspelt] == 4 {
-			sb.WriteString("\t\tocsp_aia_strikt true\n")
+			ls = append(ls, "ocsp_aia_strikt true")
 		}
-		sb.WriteString("\t}\n")
+		top = append(top, "ocsp_config {\n"+block("\t", ls)+"}")
 	}
-	sb.WriteString("}\n")
-	return sb.String()
+	return "revocation {\n" + block("\t", top) + "}\n"
 }
 
 func (c c19Conf) files(e *c19Env) []string {
@@ -506,7 +531,7 @@ func c19Enumerate(tier string, emit func(c c19Conf)) {
 	}
 	// full product of the valid values of the behavioural core
 	core := []int{dMode, dStorage, dSigMode, dFetch, dStrict}
-	extra := []int{dInterval, dURL, dFile, dTrusted, dCache, dAIA, dResponder}
+	extra := []int{dInterval, dURL, dFile, dTrusted, dCache, dAIA, dResponder, dSpelling}
 	var rec func(k int, c c19Conf)
 	valid := func(d, v int) bool { return !strings.HasPrefix(c19Dims[d].Values[v], "!") }
 	rec = func(k int, c c19Conf) {
